@@ -63,6 +63,13 @@ TABLE = {
  "C18": [("Proofs/StructBound", n) for n in ["pop_bound_sound", "pop_bound_bounded", "core_bounded_crun", "view_bounded_state_after", "sma_pop", "cyber_pop"]] +
         [("Proofs/StructSched", n) for n in ["sched_pop_bound", "sched_pop_bounded"]],
 }
+EXTRA11 = {
+ "C16": [("Proofs/FAccBase", "sub_sign_exact")] + [("Proofs/FAccHln", n) for n in ["hln_state_exact", "hln_f64_accuracy", "hln_f64_accuracy_refuted"]] +
+        [("Proofs/FAccNet", "net_f64_correctly_rounded")] + [("Proofs/FAccRsi", "rsi_f64_accuracy_partial")] + [("Proofs/FAccMy", "myrsi_f64_accuracy_refuted")],
+ "C02": [("Proofs/FAccHln", "hln_f64_accuracy")],
+ "C06": [("Proofs/FAccNet", "net_f64_correctly_rounded")],
+ "C05": [("Proofs/FAccRsi", "rsi_f64_accuracy_partial")],
+}
 EXTRA10 = {
  "C07": [("Proofs/FRangeP", n) for n in ["C07_f64_exact_ranges", "ratio_range_f64", "all_finite_run_out"]] +
         [("Proofs/FRangeMy", n) for n in ["myrsi_range_f64", "myrsi_range_f64_nan", "myrsi_nan_ex"]] +
@@ -169,7 +176,7 @@ def header_of(path, name):
     return " ".join(m.group(1).split())
 
 def _merge_extra():
-    for ex in (EXTRA2, EXTRA3, EXTRA4, EXTRA5, EXTRA6, EXTRA7, EXTRA8, EXTRA9, EXTRA10):
+    for ex in (EXTRA2, EXTRA3, EXTRA4, EXTRA5, EXTRA6, EXTRA7, EXTRA8, EXTRA9, EXTRA10, EXTRA11):
         for k, v in ex.items():
             EXTRA[k] = EXTRA.get(k, []) + v
 
